@@ -225,8 +225,11 @@ class CallMixin:
     def call_contract(self, fs, module, ci, fdef, args, kwargs):
         bound = self.bind_params(fdef, args, kwargs)
         # type the arguments as the callee declares them
-        ptypes = self.param_types(fs, fdef, case=None)
+        case = self.select_case(fs, fdef, bound)
+        ptypes = self.param_types(fs, fdef, case=case)
         for n, t in ptypes.items():
+            if isinstance(t, str):
+                continue
             if n in bound and bound[n].t is not TPy:
                 try:
                     bound[n] = coerce(bound[n], t)
@@ -258,7 +261,8 @@ class CallMixin:
                 raise PyExc(ExcVal(exc))
         # normal outcome
         self.apply_modifies(fs.modifies)
-        rt = parse_type(fs.returns) if fs.returns else TNone
+        rts = (case or {}).get('returns', fs.returns)
+        rt = parse_type(rts) if rts else TNone
         result = fresh(rt, 'ret_' + fdef.name)
         env['result'] = result
         if rt is not TNone:
@@ -266,6 +270,36 @@ class CallMixin:
         for c in fs.ensures:
             self.assume(truthy(self.spec_eval(c.node, env, old_state=pre, old_locals=pre_locals)))
         return result
+
+    def select_case(self, fs, fdef, bound):
+        '''For contracts with typed cases: the first case whose parameter
+        types accept the actual arguments.'''
+        if len(fs.cases) <= 1 and not fs.cases[0].get('params'):
+            return None
+        for case in fs.cases:
+            ok = True
+            for n, ts in case.get('params', {}).items():
+                if n not in bound:
+                    continue
+                v = bound[n]
+                if ts.startswith('Ext['):
+                    if not (is_py(v, 'ext') and v.py[1] == ts[4:-1]):
+                        ok = False
+                    continue
+                if ts == 'AnyPkt':
+                    continue
+                t = parse_type(ts)
+                if isinstance(t, TPkt):
+                    if not (isinstance(v.t, TPkt) and v.t.layers[:len(t.layers)] == t.layers):
+                        ok = False
+                    continue
+                try:
+                    coerce(v, t)
+                except Unsupported:
+                    ok = False
+            if ok:
+                return case
+        raise Unsupported('no case of %s accepts the arguments' % fs.key)
 
     def apply_modifies(self, mods):
         for m in mods:
@@ -449,14 +483,22 @@ class CallMixin:
             ft = sc.fields[fn]
             if fn in kwargs:
                 v = kwargs[fn]
+                if isinstance(v.t, TOpt) and not isinstance(ft, TOpt):
+                    # scapy: a field given as None takes its default
+                    if self.branch(v.t.is_none(v.z)):
+                        v = self.pkt_default_value(owner, fn, default, ft)
+                    else:
+                        v = V(v.t.inner, v.t.val(v.z))
+                elif v.t is TNone and not isinstance(ft, TOpt):
+                    v = self.pkt_default_value(owner, fn, default, ft)
             else:
                 v = self.pkt_default_value(owner, fn, default, ft)
             self.write_heap(ref, ('pkt:' + ci.qualname, fn), ft, v)
         if 'payload' in sc.fields:
             self.write_heap(ref, ('pkt:' + ci.qualname, 'payload'), TInt, mk_int(0))
         for fn, ft in sc.fields.items():
-            if fn.startswith('_') and fn in sc.defaults:
-                self.write_heap(ref, ('pkt:' + ci.qualname, fn), ft, self.const_to_v(sc.defaults[fn]))
+            if fn.startswith('_'):
+                self.write_heap(ref, ('pkt:' + ci.qualname, fn), ft, self.const_to_v(sc.defaults.get(fn, 0)))
         return ref
 
     def pkt_default_value(self, owner, fn, default, ft):
@@ -488,6 +530,8 @@ class CallMixin:
         b2 = self.pkt_copy(b)
         last = self.pkt_layer_ref(a2, len(a2.t.layers) - 1)
         self.write_heap(last, ('pkt:' + a2.t.layers[-1], 'payload'), TInt, mk_int(b2.z))
+        if '_pcls' in self.pkt_schema(a2.t.layers[-1]).fields:
+            self.write_heap(last, ('pkt:' + a2.t.layers[-1], '_pcls'), TInt, mk_int(class_tag(b2.t.layers[0])))
         return V(TPkt(a2.t.layers + b2.t.layers), a2.z)
 
     def pkt_copy(self, p):
